@@ -3,8 +3,11 @@ module verifh
 go 1.24
 
 require (
+	early.verif v0.0.0
 	github.com/ja7ad/otp v0.0.0-00010101000000-000000000000
 	pgregory.net/rapid v1.3.0
 )
 
 replace github.com/ja7ad/otp => /repo
+
+replace early.verif => ./early
